@@ -4,6 +4,7 @@ package resmgr
 
 import (
 	"fmt"
+	"os"
 	"runtime/debug"
 	"sort"
 	"strings"
@@ -39,6 +40,13 @@ func (ri *runInfo) list() []string {
 // given invariants after every request. observe is called after every step
 // for classification.
 func runCase(c *hcCase, invs []invFn, observe func(e *executor, r *stepResult, ri *runInfo)) (v *vfkit.Violation, ri *runInfo) {
+	return runCaseX(c, invs, observe, nil, nil)
+}
+
+// runCaseX additionally takes a setup hook (called once the executor exists)
+// and a final hook (called after the last operation).
+func runCaseX(c *hcCase, invs []invFn, observe func(e *executor, r *stepResult, ri *runInfo),
+	setup func(e *executor), final func(e *executor, ri *runInfo) *vfkit.Violation) (v *vfkit.Violation, ri *runInfo) {
 	ri = &runInfo{labels: map[string]bool{}}
 	dir := vhNewStateDir()
 	h, err := vhStart(c.Policy, c.Topo, dir, c.Config)
@@ -52,6 +60,10 @@ func runCase(c *hcCase, invs []invFn, observe func(e *executor, r *stepResult, r
 	defer h.close()
 	e := &executor{h: h, m: newRtModel(), cfg: c.Config}
 	e.m.memCap = kubernetes.GetMemoryCapacity()
+	e.scratch = map[string]any{"case": c}
+	if setup != nil {
+		setup(e)
+	}
 	for _, f := range c.Topo.Features() {
 		ri.label("hw:" + f)
 	}
@@ -78,6 +90,9 @@ func runCase(c *hcCase, invs []invFn, observe func(e *executor, r *stepResult, r
 		}
 		ri.label("op:" + op.Kind)
 		r.Desc = fmt.Sprintf("op %d %s", i, r.Desc)
+		if os.Getenv("VERIF_TRACE") != "" {
+			traceStep(e, r)
+		}
 		if observe != nil {
 			observe(e, r, ri)
 		}
@@ -102,8 +117,21 @@ func runCase(c *hcCase, invs []invFn, observe func(e *executor, r *stepResult, r
 				return v, ri
 			}
 		}
+		if e.pendingViolation != nil {
+			return e.pendingViolation, ri
+		}
 	}
-	return nil, ri
+	if final != nil {
+		func() {
+			defer func() {
+				if p := recover(); p != nil {
+					v = viol("C14", "no handler panics", "panic:final", "%v\n%s", p, debug.Stack())
+				}
+			}()
+			v = final(e, ri)
+		}()
+	}
+	return v, ri
 }
 
 func vhRemove(dir string) { _ = removeAll(dir) }
@@ -115,11 +143,15 @@ type propTest struct {
 	gen     func(t *rapid.T) *hcCase
 	invs    []invFn
 	observe func(e *executor, r *stepResult, ri *runInfo)
+	setup   func(e *executor)
+	final   func(e *executor, ri *runInfo) *vfkit.Violation
+	best    *hcCase
+	bestSig string
 }
 
 func (pt *propTest) checkCase(t vfkit.Fataler, c *hcCase, record bool) {
 	st := vfkit.For(pt.prop)
-	v, ri := runCase(c, pt.invs, pt.observe)
+	v, ri := runCaseX(c, pt.invs, pt.observe, pt.setup, pt.final)
 	if record {
 		st.Case(pt.unit, ri.nt, vfkit.Hash(c), ri.list()...)
 		if ri.nt && st.WantSample() && len(c.Ops) <= 25 {
@@ -127,8 +159,48 @@ func (pt *propTest) checkCase(t vfkit.Fataler, c *hcCase, record bool) {
 		}
 	}
 	if v != nil {
-		vfkit.For(v.Property).Report(t, pt.unit, v, c)
+		if vfkit.IsKnown(v) || (v.Property != pt.prop) {
+			vfkit.For(v.Property).Report(t, pt.unit, v, c)
+			return
+		}
+		// keep the smallest failing case seen for this signature; minimise the
+		// first one by removing operations (on top of rapid's own shrinking)
+		if pt.best == nil || pt.bestSig != v.Signature {
+			pt.best, pt.bestSig = pt.minimize(c, v), v.Signature
+		} else if len(c.Ops) < len(pt.best.Ops) {
+			pt.best = c
+		}
+		vfkit.For(v.Property).Report(t, pt.unit, v, pt.best)
 	}
+}
+
+// minimize removes operations while the same violation persists (bounded effort).
+func (pt *propTest) minimize(c *hcCase, v *vfkit.Violation) *hcCase {
+	same := func(cand *hcCase) bool {
+		for i := 0; i < 2; i++ { // map-order dependent failures get a second chance
+			w, _ := runCaseX(cand, pt.invs, nil, pt.setup, pt.final)
+			if w != nil && w.Property == v.Property && w.Signature == v.Signature {
+				return true
+			}
+		}
+		return false
+	}
+	cur := *c
+	budget := 400
+	for chunk := len(cur.Ops) / 2; chunk >= 1; chunk /= 2 {
+		for i := len(cur.Ops) - chunk; i >= 0 && budget > 0; i -= chunk {
+			if i+chunk > len(cur.Ops) {
+				continue
+			}
+			cand := cur
+			cand.Ops = append(append([]hcOp{}, cur.Ops[:i]...), cur.Ops[i+chunk:]...)
+			budget--
+			if same(&cand) {
+				cur = cand
+			}
+		}
+	}
+	return &cur
 }
 
 func (pt *propTest) run(t *testing.T) {
@@ -153,10 +225,21 @@ func (pt *propTest) replay(t *testing.T) {
 	// sequential runs are deterministic up to map order inside the code under
 	// test: re-execute a few times, report if any attempt shows the violation
 	for i := 0; i < 25; i++ {
-		v, _ := runCase(c, pt.invs, pt.observe)
+		v, _ := runCaseX(c, pt.invs, pt.observe, pt.setup, pt.final)
 		if v != nil {
 			vfkit.For(v.Property).Report(t, pt.unit, v, c)
 			return
 		}
 	}
+}
+
+func traceStep(e *executor, r *stepResult) {
+	fmt.Printf("TRACE %s err=%v cfgerr=%v\n", r.Desc, r.Err, r.CfgError)
+	for _, t := range r.Told {
+		fmt.Printf("TRACE    told %s %s cpus=%q mems=%q shares=%v\n", t.Kind, t.Target, t.Res.GetCpu().GetCpus(), t.Res.GetCpu().GetMems(), t.Res.GetCpu().GetShares().GetValue())
+	}
+	for _, c := range e.m.ctrsIn(stCreated, stRunning, stStopped, stCreateFailed) {
+		fmt.Printf("TRACE    rt %s %s pod=%s/%s name=%s req=%d cpus=%q mems=%q\n", c.ID, c.State, e.m.pods[c.Pod].Spec.Namespace, e.m.pods[c.Pod].Spec.QoS, c.Spec.Name, c.ReqMilli, c.Res.Cpus, c.Res.Mems)
+	}
+	traceWhiteBox(e)
 }
